@@ -48,6 +48,12 @@ def sec_coeffs(rep):
             # FW needs the physical-region assumption that its own denominator does not vanish
             extra = [Not(Eq(sy.y**2 / 2 + (1 - sy.y) - sy.M2target * (sy.x * sy.y) ** 2 / sy.Q2, 0))] if kind == "FW" else []
             rep.check(f"C11/xs_coeffs_unpolarized/post/{kind}/{proj}", case, sy, pre + extra, sides=(kind != "FW"))
+            if proj in ("electron", "antineutrino"):
+                # float companion at extreme but legal kinematics (tiny and nearly maximal inelasticity,
+                # very large Q2, small x): the coefficients keep their digits
+                base = dict(M2target=0.88, MW2=6464.0, GF=1.1663787e-05)
+                envs = [dict(base, x=0.3, Q2=10.0, y=0.5), dict(base, x=1e-5, Q2=1e6, y=1e-6), dict(base, x=0.9, Q2=2.0, y=0.999999), dict(base, x=0.01, Q2=1e4, y=1e-3), dict(base, x=0.5, Q2=1e2, y=1e-9)]
+                rep.float_companion(f"C11/xs_coeffs_unpolarized/{kind}/{proj}", case, sy, pre + extra, envs, rtol=1e-10)
     for kind in ("XSHERANC", "XSHERACC", "XSCHORUSCC"):
         rep.check(f"C11/xs_coeffs_unpolarized/params-required/{kind}", lambda sy, kind=kind: (exs.xs_coeffs_unpolarized(kind, sy.y, x=sy.x, Q2=sy.Q2, params=None), None), sy, pre, exc_ok=lambda p: isinstance(p.exc, ValueError))
     rep.cases += 1
